@@ -171,3 +171,13 @@ ENTRIES += [
     {'id': 'C12/eyeballs-reset-secondary', 'prop': 'C12', 'kind': 'break', 'expect': 'C12-D7', 'edits': [(PL,
       "        if self._active_connection:\n            self._active_connection.reset()\n", "        if self._active_connection:\n            self._secondary_connection.reset()\n")]},
 ]
+
+_INT_NEW = "        while True:\n            self._response = response = yield from stream.read_response()\n\n            if not 100 <= response.status_code <= 199 \\\n                    or response.status_code == 101:\n                break\n\n            # An interim response (100 Continue, 103 Early Hints) precedes\n            # the response to this request; it is not that response.\n            _logger.debug('Got interim response {0}.'.format(response))\n\n        response.request = request\n"
+ENTRIES += [
+    {'id': 'C08/regress-interim-response-returned', 'prop': 'C08', 'kind': 'break', 'expect': 'C08-D2', 'edits': [(HC, _INT_NEW,
+      "        self._response = response = yield from stream.read_response()\n        response.request = request\n")]},
+    {'id': 'C04/regress-interim-response-returned', 'prop': 'C04', 'kind': 'break', 'expect': 'C04-D7', 'edits': [(HC, _INT_NEW,
+      "        self._response = response = yield from stream.read_response()\n        response.request = request\n")]},
+    {'id': 'C08/benign-interim-loop-other-spelling', 'prop': 'C08', 'kind': 'benign', 'edits': [(HC, _INT_NEW,
+      "        response = yield from stream.read_response()\n\n        while response.status_code // 100 == 1 and response.status_code != 101:\n            response = yield from stream.read_response()\n\n        self._response = response\n        response.request = request\n")]},
+]
